@@ -89,7 +89,9 @@ def main(argv=None):
             for case in inst.cases():
                 jobs.append(("sym", c.__module__, c.__name__, case, tier, seed, all_specs))
         if getattr(c, "has_native", False):
-            jobs.append(("native", c.__module__, c.__name__, None, tier, seed, all_specs))
+            shards = int(getattr(c, "native_shards", 1) or 1)
+            for k in range(shards):
+                jobs.append(("native", c.__module__, c.__name__, (k, shards) if shards > 1 else None, tier, seed, all_specs))
     results = harness.run_jobs(jobs)
 
     extra = []
@@ -125,7 +127,14 @@ def decide(pid, prop, tier, seed, results, extra, t0, args):
         if kind == "error":
             engine_errors.append(f"{cname}: {r}")
         elif kind == "native":
-            native_by_contract[r["contract"]] = r
+            prev = native_by_contract.get(r["contract"])
+            if prev is None:
+                native_by_contract[r["contract"]] = r
+            else:  # another shard of the same stand-in
+                prev["cases"] += r["cases"]
+                prev["failures"].extend(r["failures"])
+                prev["samples"] = (prev["samples"] + r["samples"])[:2]
+                prev["error"] = prev["error"] or r["error"]
             if r["error"]:
                 engine_errors.append(f"native {cname}: {r['error']}")
 
